@@ -889,7 +889,7 @@ fn main() {
 	let s1 = TableSpace::new(1, KINDS_FULL);
 	let s2 = TableSpace::new(2, KINDS_FULL);
 	let s2c = TableSpace::new(2, &KINDS_FULL[..CORE]);
-	let s2r = TableSpace::new(2, &KINDS_FULL[..8]);
+	let s2m = TableSpace::new(2, &KINDS_FULL[..MEDIUM]);
 	let s3 = TableSpace::new(3, if quick { KINDS_MINI } else { &KINDS_FULL[..8] });
 	let s3r = TableSpace::new(3, KINDS_MINI);
 	let s4 = TableSpace::new(4, &KINDS_MINI[..3]);
@@ -899,8 +899,7 @@ fn main() {
 	if smoke {
 		ctx.note("C14_SMOKE: development run over tables of <= 1 entry only (not a tier)".to_string());
 	} else if quick {
-		run("tables-of-2 (22 kinds)", sweep_tables(ctx, &fx, &plain, &s2, Orders::Canonical, "s2"));
-		run("tables-of-2 in reverse order (8 kinds)", sweep_tables(ctx, &fx, &plain, &s2r, Orders::ReversedOnly, "s2r"));
+		run("tables-of-2 (12 kinds, both orders)", sweep_tables(ctx, &fx, &plain, &s2m, Orders::Both, "s2"));
 		run("tables-of-3 (4 kinds)", sweep_tables(ctx, &fx, &plain, &s3, Orders::Canonical, "s3"));
 	} else {
 		run("tables-of-2 (22 kinds, both orders)", sweep_tables(ctx, &fx, &plain, &s2, Orders::Both, "s2"));
@@ -958,7 +957,7 @@ fn main() {
 	}
 	ctx.note("tables whose enclosing-class relation has a cycle are not chains and are not explored in-process".to_string());
 
-	let exhaustive_note = if quick { "tables of <= 2 entries: complete over the 22 kinds (reverse order: over 8 kinds); tables of 3 entries: complete over 4 kinds" } else { "tables of <= 2 entries: complete over the 22 kinds, both orders; 3 entries: complete over 8 kinds (reverse order: 4 kinds); 4 entries: complete over the 3 applying kinds (stated cap)" };
+	let exhaustive_note = if quick { "tables of <= 1 entry: complete over the 22 kinds; 2 entries: complete over 12 kinds, both orders; 3 entries: complete over 4 kinds" } else { "tables of <= 2 entries: complete over the 22 kinds, both orders; 3 entries: complete over 8 kinds (reverse order: 4 kinds); 4 entries: complete over the 3 applying kinds (stated cap)" };
 	let coverage = json!({
 		"evaluations": s.evaluations,
 		"distinct_nontrivial": s.distinct.len(),
@@ -978,6 +977,7 @@ fn main() {
 			"four_entry_kinds": s4.menu.len(),
 			"max_entries": ctx.tier.pick(3, 4),
 			"orders": "canonical (by class) and reversed, see `spaces`",
+			"two_entry_kinds": if quick { MEDIUM } else { KINDS_FULL.len() },
 			"three_entry_kinds": s3.menu.len(),
 			"styled_two_entry_kinds": if quick { CORE } else { KINDS_FULL.len() },
 			"cycles": "excluded",
